@@ -27,6 +27,13 @@ TOKENS = [
 ]
 
 
+# inputs that exhibit the recorded known findings (so that each run reports them, and only them, as KNOWN-FINDING)
+KNOWN_TRIGGERS = [
+    b"zzzzzzzzzzzzzzzzzzzzzzzzzzzzzz;powershell x",          # K06/K06b: end = len - start < start
+    b"p^owershell/e QQBCAA==",                               # K08: rewritten child longer than the de-escaped parent
+]
+
+
 def rng_for(tag: str) -> random.Random:
     return random.Random(f"{SEED}:{tag}")
 
